@@ -449,6 +449,16 @@ func (env *SpecEnv) call(x *SCall) Val {
 			sub := *env
 			sub.st = env.loopEntry
 			return sub.eval(x.Args[0])
+		case "maphas":
+			// maphas(m, k): k is a key of map m
+			m := env.eval(x.Args[0])
+			k := env.eval(x.Args[1])
+			if m.T == nil {
+				sfail("maphas of spec value")
+			}
+			mtn := typeName(m.T)
+			has := Select(Select(env.st.get(ex.mapHeap(mtn, "has", SBool)), m.one()), refOf(k))
+			return spec1(And(Ne(m.one(), Int(0)), has))
 		case "mapbool":
 			// mapbool(m, k): value of a map[K]bool at k (false when absent)
 			m := env.eval(x.Args[0])
